@@ -22,6 +22,13 @@ CLAIMED = {
         "note": "trusted: numpy; frame conversions and the analytic Sun are taken from the pristine node (C02/C11/C18 territory); for two iterations consumed at the same time through one listener object (the plan's own doing) nothing is asserted about events; inside visibility streams completeness is asserted for the station listeners only (the others are filtered below the horizon by design)",
         "ref": "DESIGN.md 5.3",
     },
+    "C13": {
+        "level": "exploration",
+        "technique": "deterministic simulation: writer / reader processes (fresh package copies with their own configuration and virtual wall clock) exchanging CCSDS messages through a simulated disk along seeded chains of write / restart / read / re-write hops; canonical-description equality at the written precision as oracle",
+        "text": "seeded search over objects (OPM states / orbits in every built-in frame and time scale with covariance in the state's frame, another frame, QSW or TNW, 0..3 impulsive / continuous maneuvers in QSW / TNW / inertial axes, optional and user-defined fields; OMM from near-earth and deep-space TLEs; OEM with 1..12 points, 0..N covariances in mixed frames, linear / Lagrange settings, lists of ephemerides, non-cartesian points; TDM with range / azimuth / elevation / doppler on one or two paths) sent along chains of 1..3 hops between fresh processes, the encoding of each hop chosen by argument, configuration or default, the writer's clock set by the plan, and the same object also decoded from the other encoding. After each hop the decoded object's canonical description is compared with the original's at the written precision (epoch 1 us per cycle, 1 mm, 1 mm/s, covariance 1e-11 relative, dv 1 mm/s...), KVN-decoded with XML-decoded, CREATION_DATE with the virtual clock. Sampling, not proof.",
+        "note": "trusted: lxml, numpy; absent name / identifier is taken as equivalent to the 'N/A' the library writes; body-centred (JPL) frames are not exercised; stored text is not corrupted (round trip, not detection); a multi-path TDM read back as a list of measure sets is compared measure by measure",
+        "ref": "DESIGN.md 5.8",
+    },
     "C14": {
         "level": "exploration",
         "technique": "deterministic simulation: seeded histories of covariance / state frame changes with faults injected at the k-th callee of a conversion, pickles crossing a simulated process boundary and transparent cache drops; reference model R C R^T from the original matrix (own QSW/TNW axes, pristine-node single-hop rotation) evaluated for every heap object after every operation",
@@ -39,4 +46,4 @@ CLAIMED = {
 }
 
 # claimed in DESIGN.md, check not yet registered
-PENDING = {k: 'designed in DESIGN.md section 5; its check is still under construction in this build phase and is therefore not claimed yet' for k in ['C03','C12','C13','C18']}
+PENDING = {k: 'designed in DESIGN.md section 5; its check is still under construction in this build phase and is therefore not claimed yet' for k in ['C03','C12','C18']}
